@@ -99,6 +99,20 @@ structure Row where
 
 def rows : List Row := testSequence.map fun r => ⟨r.1, r.2.1, r.2.2.1, r.2.2.2⟩
 
+/-- the rule set of pass packing: `test_sequence` and the conditions of `can_pack` that were added by repairs (the unrepaired
+    variants are only used by the `_witness` theorems) -/
+structure Rules where
+  rows : List Row
+  /-- C01-2: a RELU-type operator is not packed behind a LUT / tanh / sigmoid fused activation -/
+  actCheck : Bool := true
+  /-- C01-22: nothing is packed behind a TRANSPOSE -/
+  transposeCheck : Bool := true
+  /-- C01-1: an operator that reads its input through a slice is not packed with the producer -/
+  readOffsetCheck : Bool := true
+
+/-- the rules of the module under verification -/
+def Rules.current : Rules := { rows := PassPacking.rows }
+
 def hasFlag (flags f : Nat) : Bool := flags &&& f != 0
 
 /-- `curr_flags &= ~flags_to_clear` -/
@@ -114,7 +128,7 @@ def findRowFrom (ty : Nat) (npu : Bool) (flags : Nat) : Nat → List Row → Opt
   | _, [] => none
   | i, r :: rs => if rowAccepts r ty npu flags then some (i, r) else findRowFrom ty npu flags (i + 1) rs
 
-def findRow (ty : Nat) (npu : Bool) (flags : Nat) : Option (Nat × Row) := findRowFrom ty npu flags 0 rows
+def findRow (R : Rules) (ty : Nat) (npu : Bool) (flags : Nat) : Option (Nat × Row) := findRowFrom ty npu flags 0 R.rows
 
 /-! ## `can_pack` -/
 
@@ -126,15 +140,15 @@ def otherConsumer (cs : List (Option Nat)) (cur : Nat) : Bool :=
   | _ => true
 
 /-- `can_pack(inp, curr_op)`; `none` = the code raises (IndexError on `ifm_shapes[1]`) -/
-def canPack (G : Graph) (inp cur : Nat) : Option Bool :=
+def canPack (R : Rules) (G : Graph) (inp cur : Nat) : Option Bool :=
   match (G.tensor inp).ops with
   | [nx] =>
     let c := G.op cur
     let n := G.op nx
     -- a RELU-type post operation does not share a pass with a LUT / tanh / sigmoid fused activation
-    if activationOps.contains c.type && (match n.act with | none => false | some a => !reluOps.contains a) then some false
+    if R.actCheck && activationOps.contains c.type && (match n.act with | none => false | some a => !reluOps.contains a) then some false
     -- nothing is packed behind a TRANSPOSE
-    else if n.origType == opTranspose then some false
+    else if R.transposeCheck && n.origType == opTranspose then some false
     -- every output of next_op is consumed by curr_op only
     else if n.outputs.any (fun o => otherConsumer (G.tensor o).consumers cur) then some false
     else
@@ -153,8 +167,8 @@ def canPack (G : Graph) (inp cur : Nat) : Option Bool :=
       | some false => some false
       | some true =>
         -- curr_op consumes the whole output of next_op (no slice read)
-        if some inp == c.ifm && c.ro0 then some false
-        else if c.ifm2.isSome && some inp == c.ifm2 && c.ro1 then some false
+        if R.readOffsetCheck && some inp == c.ifm && c.ro0 then some false
+        else if R.readOffsetCheck && c.ifm2.isSome && some inp == c.ifm2 && c.ro1 then some false
         else some true
   | _ => some false
 
@@ -198,18 +212,18 @@ def setInsert (l : List Nat) (x : Nat) : List Nat := if l.contains x then l else
 def ifmRowMask : Nat := flagMac ||| flagElementWise ||| flagPost ||| flagPostFusingLimited ||| flagMemcpy
 
 /-- `for inp in reversed(curr_op.inputs)`: queue the producer or register the tensor as an input -/
-def scanInputs (G : Graph) (cur : Nat) : List (Option Nat) → Walk → Walk
+def scanInputs (R : Rules) (G : Graph) (cur : Nat) : List (Option Nat) → Walk → Walk
   | [], w => w
-  | none :: rest, w => scanInputs G cur rest w
+  | none :: rest, w => scanInputs R G cur rest w
   | some inp :: rest, w =>
-    match canPack G inp cur with
+    match canPack R G inp cur with
     | none => w.fail "IndexError: can_pack ifm_shapes[1]"
     | some true =>
-      scanInputs G cur rest { w with queue := w.queue ++ [⟨(G.tensor inp).ops.headD 0, some inp, some cur⟩] }
-    | some false => scanInputs G cur rest { w with inputSet := setInsert w.inputSet inp }
+      scanInputs R G cur rest { w with queue := w.queue ++ [⟨(G.tensor inp).ops.headD 0, some inp, some cur⟩] }
+    | some false => scanInputs R G cur rest { w with inputSet := setInsert w.inputSet inp }
 
 /-- the body executed when row `ri` accepts the operator of queue item `q` -/
-def acceptOp (G : Graph) (w : Walk) (q : QItem) (ri : Nat) (r : Row) : Walk :=
+def acceptOp (R : Rules) (G : Graph) (w : Walk) (q : QItem) (ri : Nat) (r : Row) : Walk :=
   let o := G.op q.op
   let nbt := blockTypeOf o.type
   if nbt != 0 && (w.blockType != 0 || w.primary.isSome) then w.fail "assert: one major block type per pass"
@@ -229,9 +243,9 @@ def acceptOp (G : Graph) (w : Walk) (q : QItem) (ri : Nat) (r : Row) : Walk :=
       else w
     if w.err.isSome then w
     else if r.set.isNone && o.runOnNpu then w.fail "assert not curr_op.run_on_npu (fall-back row)"
-    else scanInputs G q.op o.inputs.reverse w
+    else scanInputs R G q.op o.inputs.reverse w
 
-def walkStep (G : Graph) (w : Walk) : Walk :=
+def walkStep (R : Rules) (G : Graph) (w : Walk) : Walk :=
   match w.queue with
   | [] => w
   | q :: rest =>
@@ -239,16 +253,16 @@ def walkStep (G : Graph) (w : Walk) : Walk :=
     if w.ops.contains q.op then w
     else
       let o := G.op q.op
-      match findRow o.type o.runOnNpu w.flags with
-      | some (ri, r) => acceptOp G w q ri r
+      match findRow R o.type o.runOnNpu w.flags with
+      | some (ri, r) => acceptOp R G w q ri r
       | none =>
         match q.tens with
         | none => w.fail "assert tens is not None"
         | some t => { w with inputSet := setInsert w.inputSet t }
 
-def walkRun (G : Graph) : Nat → Walk → Walk
+def walkRun (R : Rules) (G : Graph) : Nat → Walk → Walk
   | 0, w => if w.queue.isEmpty then w else w.fail "fuel"
-  | n + 1, w => if w.queue.isEmpty then w else walkRun G n (walkStep G w)
+  | n + 1, w => if w.queue.isEmpty then w else walkRun R G n (walkStep R G w)
 
 /-- enough steps for any walk: every operator is accepted at most once and queues at most its inputs -/
 def walkFuel (G : Graph) (nstart : Nat) : Nat := (G.ops.map fun o => o.inputs.length + 1).sum + nstart + 1
@@ -405,17 +419,17 @@ def finishPass (G : Graph) (w : Walk) (ofm : Option Nat) (ofmShape : Option Shap
          ifm, ifm2, ofm, weights, scale, lut, ifmShapes, ofmShape }
 
 /-- `build_pass((op,), ofm_tensor, ofm_shape)` as `visit_op` calls it -/
-def buildPass (G : Graph) (o : Nat) : Except String Pass := do
+def buildPass (R : Rules) (G : Graph) (o : Nat) : Except String Pass := do
   let op := G.op o
   let ofm ← match op.outputs.head? with | some t => pure t | none => throw "IndexError: op.outputs[0]"
   let ofmShape ← if op.runOnNpu then
       match op.ofmShapes[0]? with | some s => pure (some s) | none => throw "IndexError: op.ofm_shapes[0]"
     else pure none
-  finishPass G (walkRun G (walkFuel G 1) (walkStart [o])) (some ofm) ofmShape
+  finishPass G (walkRun R G (walkFuel G 1) (walkStart [o])) (some ofm) ofmShape
 
 /-- `build_pass(startup_list)` with the fix-up of the outputs -/
-def buildStartupPass (G : Graph) (startup : List Nat) : Except String Pass := do
-  let p ← finishPass G (walkRun G (walkFuel G startup.length) (walkStart startup)) none none
+def buildStartupPass (R : Rules) (G : Graph) (startup : List Nat) : Except String Pass := do
+  let p ← finishPass G (walkRun R G (walkFuel G startup.length) (walkStart startup)) none none
   let outs ← startup.mapM fun o => match (G.op o).outputs.head? with
     | some t => pure t | none => throw "IndexError: startup op.outputs[0]"
   pure { p with outputs := outs, isStartup := true }
@@ -445,7 +459,7 @@ def expandRefs : List (Nat × Nat) → List Task
   | [] => []
   | (t, n) :: rest => List.replicate n (Task.vt t) ++ expandRefs rest
 
-def dfsStep (G : Graph) (d : Dfs) : Dfs :=
+def dfsStep (R : Rules) (G : Graph) (d : Dfs) : Dfs :=
   match d.stack with
   | [] => d
   | .vt t :: rest =>
@@ -462,26 +476,26 @@ def dfsStep (G : Graph) (d : Dfs) : Dfs :=
     if n > c then d.fail "assert visit_op_refcount[op] <= len(op.outputs)"
     else if n == c then
       if startupInitOps.contains (G.op o).type then { d with startup := d.startup ++ [o] }
-      else match buildPass G o with
+      else match buildPass R G o with
         | .error e => d.fail e
         | .ok p => { d with passes := p :: d.passes, stack := expandRefs p.inputRefs ++ d.stack }
     else d
 
-def dfsRun (G : Graph) : Nat → Dfs → Dfs
+def dfsRun (R : Rules) (G : Graph) : Nat → Dfs → Dfs
   | 0, d => if d.stack.isEmpty then d else d.fail "fuel"
-  | n + 1, d => if d.stack.isEmpty then d else dfsRun G n (dfsStep G d)
+  | n + 1, d => if d.stack.isEmpty then d else dfsRun R G n (dfsStep R G d)
 
 def dfsFuel (G : Graph) : Nat :=
   (G.tensors.map fun t => t.consumers.length + t.ops.length).sum + G.outputs.length + 1
 
 /-- the passes in the order `list(reversed(reverse_pass_list))` -/
-def packDfs (G : Graph) : Except String (List Pass) := do
-  let d := dfsRun G (dfsFuel G) { stack := G.outputs.map Task.vt }
+def packDfs (R : Rules) (G : Graph) : Except String (List Pass) := do
+  let d := dfsRun R G (dfsFuel G) { stack := G.outputs.map Task.vt }
   if let some e := d.err then throw e
   if d.startup.isEmpty then pure d.passes
   else
-    let sp ← buildStartupPass G d.startup
-    let d := dfsRun G (dfsFuel G) { d with passes := sp :: d.passes, stack := expandRefs sp.inputRefs }
+    let sp ← buildStartupPass R G d.startup
+    let d := dfsRun R G (dfsFuel G) { d with passes := sp :: d.passes, stack := expandRefs sp.inputRefs }
     if let some e := d.err then throw e
     pure d.passes
 
@@ -607,8 +621,8 @@ def passLinks (G : Graph) (ps : List Pass) (order : List Nat) : Except String Un
   | e :: _ => .error e
 
 /-- `pack_into_passes` for one subgraph: the final pass list -/
-def packIntoPasses (G : Graph) : Except String (List Pass) := do
-  let ps ← packDfs G
+def packIntoPasses (R : Rules) (G : Graph) : Except String (List Pass) := do
+  let ps ← packDfs R G
   let order ← reorderIdx G ps
   passLinks G ps order
   pure (order.map fun i => ps.getD i default)
